@@ -89,6 +89,12 @@ def plan(tier, seed):
     for H, P in ((2, 12), (3, 12), (2, 13), (3, 13)):
         for fname in ("none", "skew"):
             jobs.append(("slotcache", H, P, fname, 0.1, seed, math.comb(H + P - 1, P) * P * H * 4))
+    for P in (2, 3):
+        for fname in ("none", "skew"):
+            for F in (0.0, 0.3):
+                for st in (0, 1):
+                    for readless in (False, True):
+                        jobs.append(("sampler1", 3, P, fname, F, st, readless, seed, 4000))
     jobs.append(("orch", seed, 100))
     for part in (("asm", 0), ("asm", 1), ("hand", 0), ("hand", 1)):
         jobs.append(("cliflow", seed, part, 10 ** 7))
@@ -97,7 +103,78 @@ def plan(tier, seed):
 
 
 def run_job(job):
-    return {"slot": job_slot, "compound": job_compound, "reuse": job_reuse, "orch": job_orch, "cliflow": job_cliflow, "slotcache": job_slotcache}[job[0]](job)
+    return {"slot": job_slot, "compound": job_compound, "reuse": job_reuse, "orch": job_orch, "cliflow": job_cliflow, "slotcache": job_slotcache, "sampler1": job_sampler1}[job[0]](job)
+
+
+def job_sampler1(job):
+    """one whole step of mcmc_sampler (py_func, every seam owned, every answer sequence enumerated) from every start state gives the exact one-step
+    transition matrix of the *sampler as a whole* - including whatever it does for a sample without reads; the reference posterior (the prior when
+    there are no reads) must be stationary for it"""
+    import mchap.calling.mcmc as cm
+
+    _, H, P, fname, F, st, readless, seed, _ = job
+    inst = CallInstance(H, P, fname, F, seed, read_variant=1)
+    r = Result()
+    payload = {"kind": "job", "job": job}
+    tag = inst.name() + "|type=%d|%s" % (st, "no-reads" if readless else "reads")
+    if readless:
+        R = np.zeros((0,) + inst.R.shape[1:])
+        C = np.zeros(0, np.int64)
+        w = {g: inst.prior(g) for g in inst.gens}
+        z = sum(w.values())
+        post = {g: v / z for g, v in w.items()}
+    else:
+        R, C = inst.R, inst.C
+        post = inst.post()
+    idx = {g: i for i, g in enumerate(inst.gens)}
+    n = len(inst.gens)
+    M = np.zeros((n, n))
+    real_g, real_m = cm.gibbs_options, cm.mh_options
+    real_c = cm.compound_step.py_func  # the step itself runs as plain Python too (its seams are the ones owned here)
+
+    def through(real):
+        def f(*a, **kw):
+            with unpatched():
+                return real(*a, **kw)
+        return f
+
+    for g in inst.gens:
+        r.states += 1
+        if post[g] == 0:
+            M[idx[g], idx[g]] = 1.0
+            continue
+        r.nontrivial += 1
+
+        def run(o):
+            with patched((cm, "np", NumpyProxy(o)), (cm, "random_choice", o.random_choice), (cm, "gibbs_options", through(real_g)), (cm, "mh_options", through(real_m)),
+                         (cm, "compound_step", real_c)):
+                gt, lt = cm.mcmc_sampler.py_func(genotype_alleles=np.array(g), haplotypes=inst.haps, reads=R, read_counts=C, inbreeding=F, frequencies=inst.farr,
+                                                 n_steps=1, cache=False, step_type=st)
+            return tuple(sorted(int(x) for x in np.asarray(gt)[0]))
+
+        tot = 0.0
+        for o, t in explore(run):
+            r.evaluations += 1
+            r.transitions += 1
+            pr = o.probability()
+            if pr is None or t not in idx:
+                r.violation("sampler-step|%s|g=%s" % (tag, g), "one sampler step from %r ended in %r (path probability %r)" % (g, t, pr), payload)
+                continue
+            tot += pr
+            M[idx[g], idx[t]] += pr
+        if abs(tot - 1) > 1e-9:
+            r.violation("sampler-row|%s|g=%s" % (tag, g), "path probabilities of one sampler step sum to %.12g" % tot, payload)
+    pi = np.array([post[g] for g in inst.gens])
+    out = pi @ M
+    dev = float(np.abs(out - pi).max())
+    r.maxi("sampler_stationarity_abs_dev", dev)
+    if dev > 1e-9:
+        k = int(np.abs(out - pi).argmax())
+        r.violation("sampler-stationary|%s" % tag, "one step of the sampler does not leave the %s invariant: at genotype %s pi=%.12g (pi P)=%.12g" % (
+            "prior (no reads)" if readless else "posterior", inst.gens[k], pi[k], out[k]), payload)
+    r.outcome((tag, np.round(M, 9).tolist()))
+    r.sample({"sampler_step_matrix": tag, "states": n}, cap=1)
+    return r
 
 
 def job_slotcache(job):
